@@ -224,7 +224,7 @@ var rec = ev.New("TestPropConcurrentUse", "rounds of 16 goroutines behind a star
 func TestPropConcurrentUse(t *testing.T) {
 	ctx := context.Background()
 	pool := keys.Pool()
-	ev.Check(t, 40, 300, func(t *rapid.T) {
+	ev.Check(t, 30, 300, func(t *rapid.T) {
 		g := doc.NewG(t, doc.Config{Anchors: rapid.Bool().Draw(t, "anchors"), Timestamps: true, Floats: true, BigMaps: true, BigMapOneIn: 6,
 			EmptyKey: true, EmptyMatrix: true, BothCommands: true})
 		root := g.Pipeline()
